@@ -5,7 +5,9 @@
 //! Case: {"data":D, "node":NODE, "path":"/sql"|"/fragment", "q":query string, "body":BODY, "fault":FAULT?}
 //!   NODE  = "S" single node | "N0".."N2" three-node cluster | "D" node whose only peer is down |
 //!           "I" node whose only peer is the harness's fault-injected peer | "L0" node whose loader has not finished |
-//!           "L1" node whose loader finished late | "X" node whose loader failed
+//!           "L1" node whose loader finished late | "X" node whose loader failed |
+//!           "U" node whose membership VIEW is set by the case: "view":[PEER..], PEER = "unknown-absent" (configured, never probed,
+//!           nothing listens) | "unknown-alive" (configured, never probed, a live node) | "up" (a live node seen Up) | "down" (seen Down)
 //!   BODY  = {"k":"stmt","sql":..} | {"k":"empty"} | {"k":"spaces"} | {"k":"nonutf8"} | {"k":"huge"} | {"k":"raw","text":..}
 //!   FAULT = what the fault peer does on POST /fragment: "healthy" | {"http":status} | "garbage" | "close" |
 //!           {"cut":"declared"|"consistent","at":[msg,delta]}   (body cut; Content-Length = full | = cut length)
@@ -69,6 +71,15 @@ pub mod net {
     pub async fn spawn_node(node_id: u64, root: &Path, flight: bool, load: Load) -> Result<ServerHandle, String> {
         isolate_env();
         spawn(options(node_id, flight), loader(root.to_path_buf(), load)).await.map_err(|e| e.to_string())
+    }
+
+    /// a node whose discovery loop runs once at start and then sleeps for an hour: its membership view stays exactly
+    /// what the harness writes into it (`set_discovery` + `set_members` = what `resolve_once` does, minus the probe)
+    pub async fn spawn_quiet_node(node_id: u64, root: &Path, flight: bool) -> Result<ServerHandle, String> {
+        isolate_env();
+        let mut o = options(node_id, flight);
+        o.discovery_interval = Duration::from_secs(3600);
+        spawn(o, loader(root.to_path_buf(), Load::Now)).await.map_err(|e| e.to_string())
     }
 
     pub async fn wait_for<F: FnMut() -> bool>(deadline: Duration, mut f: F) -> bool {
@@ -252,6 +263,7 @@ pub struct World {
     pub down: ServerHandle,
     pub init: ServerHandle,
     pub broken: ServerHandle,
+    pub quiet: ServerHandle,
     pub fault: FaultPeer,
     pub reference: Arc<query_engine::ExecutionContext>,
 }
@@ -271,21 +283,22 @@ pub async fn build_world(data: &Value, flight: bool) -> Result<World, String> {
     let init = spawn_node(40, &root, flight, Load::Now).await?;
     init.set_peers(vec![init.address().to_string(), fault.addr.clone()]);
     let broken = spawn_node(50, &root, flight, Load::Fail).await?;
+    let quiet = spawn_quiet_node(70, &root, flight).await?;
     // wait for tables and membership
     let dl = Duration::from_secs(60);
-    for h in [&single, &down, &init].into_iter().chain(trio.iter()) {
+    for h in [&single, &down, &init, &quiet].into_iter().chain(trio.iter()) {
         if !wait_for(dl, || h.state().tables_loaded()).await { return Err(format!("node {} never loaded: {:?}", h.node_id(), h.state().load_error())); }
     }
     if !wait_for(dl, || broken.state().load_error().is_some()).await { return Err("broken node never reported its load error".into()); }
     for h in &trio { if !converge(&h.local_addr().to_string(), 3, 3, dl).await { return Err("trio did not converge".into()); } }
     if !converge(&down.local_addr().to_string(), 2, 1, dl).await { return Err("down-peer node did not settle".into()); }
     if !converge(&init.local_addr().to_string(), 2, 2, dl).await { return Err("initiator did not see the fault peer up".into()); }
-    Ok(World { key: data.to_string(), root, single, trio, down, init, broken, fault, reference })
+    Ok(World { key: data.to_string(), root, single, trio, down, init, broken, quiet, fault, reference })
 }
 
 impl World {
     pub fn node(&self, name: &str) -> Option<&ServerHandle> {
-        match name { "S" => Some(&self.single), "N0" => self.trio.first(), "N1" => self.trio.get(1), "N2" => self.trio.get(2), "D" => Some(&self.down), "I" => Some(&self.init), "X" => Some(&self.broken), _ => None }
+        match name { "S" => Some(&self.single), "N0" => self.trio.first(), "N1" => self.trio.get(1), "N2" => self.trio.get(2), "D" => Some(&self.down), "I" => Some(&self.init), "X" => Some(&self.broken), "U" => Some(&self.quiet), _ => None }
     }
 }
 
@@ -410,6 +423,7 @@ async fn run_on(world: &World, c: &Value, h: &ServerHandle, ready: bool) -> Valu
     let fault_active = c["node"] == "I" && peer_active && c.get("fault").map(|f| !f.is_null() && f != "healthy").unwrap_or(false);
     if fault_active && dist == "ok" { dist = "error"; }
 
+    let view_status: Vec<String> = view["members"].as_array().map(|a| a.iter().filter(|m| m["is_self"] != true).map(|m| m["status"].as_str().unwrap_or("?").to_string()).collect()).unwrap_or_default();
     let resp = if c["body"]["k"] == "huge" {
         match tolerant_post(&addr, &format!("{path}?{q}"), &body).await { Some(r) => r, None => return json!({"transport_error": "no response to an oversized request"}) }
     } else {
@@ -422,7 +436,7 @@ async fn run_on(world: &World, c: &Value, h: &ServerHandle, ready: bool) -> Valu
     };
     let mut out = json!({"status": resp.status, "distributed": resp.header("x-qe-distributed"), "skipped": resp.header("x-qe-distributed-skipped"),
         "rows_hdr": resp.header("x-qe-rows"), "ctype": resp.header("content-type"), "shards": resp.header("x-qe-shards"),
-        "local": local, "dist": dist, "plan_ok": plan_ok, "members_up": up, "members_total": total, "ready": ready, "peer_active": peer_active, "fault_active": fault_active, "format": fmt});
+        "local": local, "dist": dist, "plan_ok": plan_ok, "members_up": up, "members_total": total, "ready": ready, "peer_active": peer_active, "fault_active": fault_active, "format": fmt, "peer_status": view_status});
     if resp.status != 200 {
         out["error"] = json!(serde_json::from_slice::<Value>(&resp.body).ok().and_then(|v| v["error"].as_str().map(|s| s.chars().take(200).collect::<String>())));
         return out;
@@ -497,6 +511,27 @@ async fn run_case_async(world: &World, c: &Value) -> Value {
     }
     let Some(h) = world.node(node) else { return json!({"bad_case": true}) };
     if node == "I" { *world.fault.mode.lock().unwrap() = c.get("fault").cloned().unwrap_or(json!("healthy")); }
+    if node == "U" {
+        // write the case's membership view into the quiet node: configured peers start Unknown; only "up"/"down" get a probe result
+        let m = &h.state().membership;
+        let mut live = world.trio.iter();
+        let mut peers: Vec<(String, &str, u64)> = vec![];
+        for k in c["view"].as_array().cloned().unwrap_or_default() {
+            let kind = k.as_str().unwrap_or("");
+            match kind {
+                "up" | "unknown-alive" => { if let Some(n) = live.next() { peers.push((n.address().to_string(), if kind == "up" { "up" } else { "unknown" }, n.node_id())); } }
+                "down" => peers.push((dead_address(), "down", 0)),
+                _ => peers.push((dead_address(), "unknown", 0)),
+            }
+        }
+        let addrs: Vec<String> = peers.iter().map(|p| p.0.clone()).collect();
+        m.set_discovery(query_engine::distributed::Discovery::Static(addrs.clone()));
+        m.set_members(vec![]);
+        m.set_members(addrs);
+        for (a, st, id) in &peers {
+            match *st { "up" => m.record_up(a, Some(*id), None), "down" => m.record_down(a, "connection refused (injected view)"), _ => {} }
+        }
+    }
     let ready = node != "X";
     let out = run_on(world, c, h, ready).await;
     if node == "I" { *world.fault.mode.lock().unwrap() = json!("healthy"); }
@@ -580,6 +615,17 @@ pub fn main(o: &Opts) {
             }
             // the no-fallback rule: the initiator's only peer fails its fragment
             2 | 3 => json!({"data": data, "node": "I", "path": "/sql", "q": query_string(&mut r, true), "body": stmt, "fault": r.pick(&faults).clone()}),
+            // view:unknown-peer — the node's view holds 1–3 configured peers that were NEVER probed (absent or alive), alone or
+            // mixed with Up / Down peers; auto must count only members that are UP, and fragments go only to those
+            4 | 5 => {
+                let mut view: Vec<&str> = vec![];
+                for _ in 0..1 + r.below(3) { view.push(*r.pick(&["unknown-absent", "unknown-alive", "unknown-absent"])); }
+                match r.below(4) { 0 => view.push("up"), 1 => view.push("down"), 2 => { view.push("up"); view.push("down"); } _ => {} }
+                while view.iter().filter(|k| **k == "up" || **k == "unknown-alive").count() > 3 { let p = view.iter().position(|k| *k == "unknown-alive").unwrap(); view.remove(p); }
+                r.shuffle(&mut view);
+                let q = if r.chance(3, 5) { (*r.pick(&["", "distributed=auto", "format=csv", "format=json&distributed=auto"])).to_string() } else { query_string(&mut r, true) };
+                json!({"data": data, "node": "U", "view": view, "path": "/sql", "q": q, "body": stmt})
+            }
             // membership states × modes × formats × statements
             _ => json!({"data": data, "node": *r.pick(&["S", "N0", "N1", "N2", "N0", "D"]), "path": "/sql", "q": query_string(&mut r, true), "body": stmt}),
         };
